@@ -101,15 +101,47 @@ INF = float('inf')
 # ----------------------------------------------------------------------------------------------
 # implementation side: long-lived worker processes (each public call re-JITs an inner closure)
 # ----------------------------------------------------------------------------------------------
+def case_tv(case):
+    """target_values as the oracle / model see them: exact Python ints when the case asks for it (ids beyond 2**53)"""
+    if case.get('tv_exact'):
+        return [int(v) for v in case.get('tv', [])]
+    return [float(v) for v in case.get('tv', [])]
+
+
+def _mem_layout(a, mem):
+    """the same logical array in another memory layout"""
+    if mem == 'F':
+        return np.asfortranarray(a)
+    if mem == 'T':
+        return np.ascontiguousarray(a.T).T                      # transposed view
+    if mem == 'strided':
+        big = np.zeros(tuple(n * k for n, k in zip(a.shape, (2, 3)[:a.ndim])), dtype=a.dtype)
+        sl = tuple(slice(None, None, k) for k in (2, 3)[:a.ndim])
+        big[sl] = a
+        return big[sl]
+    if mem == 'reversed':
+        rev = tuple(slice(None, None, -1) for _ in range(a.ndim))
+        return a[rev].copy()[rev]
+    if mem == 'readonly':
+        a = a.copy()
+        a.setflags(write=False)
+        return a
+    return a
+
+
 def _build_raster(case, dask_chunks=None):
     import xarray as xr
-    a = np.array(case['data'], dtype='float64')
     dtype = case.get('dtype', 'float64')
-    if not dtype.startswith('float'):
-        a = np.nan_to_num(a)
-    a = a.astype(dtype)
-    ys = np.array(case['ys'], dtype=case.get('cdtype', 'float64'))
-    xs = np.array(case['xs'], dtype=case.get('cdtype', 'float64'))
+    if case.get('data_int') is not None:
+        a = np.array(case['data_int'], dtype=dtype)            # exact integers (beyond 2**53)
+    else:
+        a = np.array(case['data'], dtype='float64')
+        if not dtype.startswith('float'):
+            a = np.nan_to_num(a)
+        a = a.astype(dtype)
+    a = _mem_layout(a, case.get('mem'))
+    ys = _mem_layout(np.array(case['ys'], dtype=case.get('cdtype', 'float64')), case.get('cmem'))
+    xs = _mem_layout(np.array(case['xs'], dtype=case.get('cdtype', 'float64')), case.get('cmem'))
     if dask_chunks is not None:
         import dask.array as da
         a = da.from_array(a, chunks=(tuple(dask_chunks[0]), tuple(dask_chunks[1])))
@@ -118,6 +150,13 @@ def _build_raster(case, dask_chunks=None):
     if case.get('res') is not None:
         r.attrs['res'] = tuple(case['res']) if isinstance(case['res'], list) else case['res']
     return r
+
+
+def _snapshot(r, dask_chunks):
+    """what the caller handed in: data bytes (computed for Dask), coordinate bytes, attrs, dims"""
+    d = np.asarray(r.data.compute() if dask_chunks is not None else r.data)
+    return (d.tobytes() + str(d.dtype).encode(), tuple((k, np.asarray(v.values).tobytes()) for k, v in sorted(r.coords.items())),
+            repr(sorted(r.attrs.items(), key=lambda kv: str(kv[0]))), tuple(r.dims))
 
 
 def _call3(case, dask_chunks=None, only=None):
@@ -131,6 +170,11 @@ def _call3(case, dask_chunks=None, only=None):
         md = None                                   # documented: None means unbounded
     tv = list(case.get('tv', []))
     kind = case.get('tv_kind', 'list')
+    if case.get('tv_exact'):
+        tv, kind = [int(v) for v in tv], 'list'
+    mk = case.get('md_kind')
+    if mk and md is not None:
+        md = {'np.float32': np.float32, 'np.float64': np.float64, 'np.int64': np.int64, 'np.int32': np.int32}[mk](md)
     if kind == 'ints' and all(float(v) == int(v) for v in tv if not (math.isnan(v) or math.isinf(v))) \
             and not any(math.isnan(v) or math.isinf(v) for v in tv):
         tv = [int(v) for v in tv]
@@ -146,6 +190,7 @@ def _call3(case, dask_chunks=None, only=None):
         if only and name not in only:
             continue
         r = _build_raster(case, dask_chunks)
+        snap = _snapshot(r, dask_chunks)
         try:
             res = getattr(P, name)(r, target_values=tv, max_distance=md,
                                    distance_metric=case.get('metric', 'EUCLIDEAN'), **kw)
@@ -157,6 +202,10 @@ def _call3(case, dask_chunks=None, only=None):
                     v = v.compute()
             v = np.asarray(v)
             out[name] = {'dtype': str(v.dtype), 'v': [[float(x) for x in row] for row in v.tolist()]}
+            changed = [k for k, (b, a2) in zip(('data', 'coords', 'attrs', 'dims'), zip(snap, _snapshot(r, dask_chunks)))
+                       if b != a2]
+            if changed:
+                out[name]['mutated'] = changed
         except Exception as e:  # reported to the caller, decided there
             out[name] = {'error': '%s: %s' % (type(e).__name__, str(e)[:300])}
     return out
@@ -439,7 +488,7 @@ def xv_tokens(case):
     power-of-two scale (exact, order preserving; the target test only compares values)"""
     from harness import xvio
     data = cast_data(case)
-    tv = [float(v) for v in case.get('tv', [])]
+    tv = case_tv(case)
     s = xvio.scale_for([v for row in data for v in row] + tv)
     return [xvio.tok(v, s) for v in tv], [xvio.tok(v, s) for row in data for v in row]
 
@@ -466,7 +515,9 @@ def model_line(case):
 
 
 def cast_data(case):
-    """cell values as the implementation sees them after the dtype cast (floats)"""
+    """cell values as the implementation sees them after the dtype cast (floats; exact ints for data_int cases)"""
+    if case.get('data_int') is not None:
+        return [[int(v) for v in row] for row in np.array(case['data_int'], dtype=case.get('dtype', 'int64')).tolist()]
     a = np.array(case['data'], dtype='float64')
     dtype = case.get('dtype', 'float64')
     if not dtype.startswith('float'):
@@ -631,7 +682,7 @@ def oracle_partial(ctx, case, impl, what):
     md = case['max_distance']
     md = INF if md in ('inf', None) else float(md)
     data = cast_data(case)
-    tv = [float(v) for v in case.get('tv', [])]
+    tv = case_tv(case)
     xs = [float(v) for v in case['xs']]
     ys = [float(v) for v in case['ys']]
     h, w = len(data), len(data[0])
@@ -693,7 +744,7 @@ def oracle(ctx, case, impl, what='numpy', exact_small=True):
     md = case['max_distance']
     md = INF if md in ('inf', None) else float(md)
     data = cast_data(case)
-    tv = [float(v) for v in case.get('tv', [])]
+    tv = case_tv(case)
     xs = [float(v) for v in case['xs']]
     ys = [float(v) for v in case['ys']]
     h = len(data)
@@ -1153,6 +1204,7 @@ def sequence_cases(rng):
         steps = [base_case(g, layout='sequence', tv=[1.0], mode='target_values', max_distance=md, metric=metric),
                  base_case(g, layout='sequence', tv=[4.0], mode='target_values', max_distance=md, metric=metric),
                  base_case(g2, layout='sequence', tv=[2.0], mode='target_values', max_distance=md, metric=metric)]
+        steps.append(dict(steps[0]))                      # the first call repeated after the others
         out.append([dict(case=c, only=[fn]) for c in steps])
     return out
 
@@ -1208,6 +1260,74 @@ def gc_box_cases(rng):
     return out
 
 
+def theme_cases(rng):
+    """appended stream (theme audit): memory layouts of the raster and of the coordinate arrays, exact integer ids beyond 2**53
+    and 2**31, dtype limits, target values one ulp off a cell value, numpy-scalar max_distance, float32 / int32 coordinates,
+    empty tuple / ndarray target_values, degenerate rasters (1x1, 2x2, all NaN, one valid cell), antimeridian and poles"""
+    out = []
+    fns = [['proximity', 'allocation'], ['direction'], ['allocation'], ['proximity', 'direction']]
+    for i, (mem, cmem) in enumerate([('F', None), ('T', 'strided'), ('strided', 'reversed'), ('reversed', 'readonly')]):
+        h, w = rng.randint(3, 7), rng.randint(3, 7)
+        c = base_case(gen_layout(rng, h, w, 'multi'), layout='mem-' + mem, mem=mem, cmem=cmem, only=fns[i],
+                      dtype=['float64', 'int32', 'float32', 'uint8'][i], max_distance=rng.choice(['inf', 2.0, 3.0]),
+                      metric=['EUCLIDEAN', 'MANHATTAN'][i % 2])
+        if mem == 'reversed':
+            c['mem'] = rng.choice(['reversed', 'readonly'])
+        out.append(c)
+    # exact integer ids: 2**53 and 2**53+1 differ only as integers; 2**31+5 does not fit int32
+    h, w = 3, 4
+    big = [[2 ** 53] * w for _ in range(h)]
+    big[rng.randrange(h)][rng.randrange(w)] = 2 ** 53 + 1
+    out.append(base_case([[0] * w] * h, layout='ids-beyond-2**53', data_int=big, dtype='int64', tv=[2 ** 53 + 1], tv_exact=True,
+                         mode='target_values', only=['proximity']))
+    mid = [[2 ** 31 + 4] * w for _ in range(h)]
+    mid[rng.randrange(h)][rng.randrange(w)] = 2 ** 31 + 5
+    out.append(base_case([[0] * w] * h, layout='ids-beyond-2**31', data_int=mid, dtype=rng.choice(['uint32', 'int64', 'uint64']),
+                         tv=[2 ** 31 + 5], tv_exact=True, mode='target_values', only=['proximity']))
+    # dtype limits as cell values and as requested targets
+    dt, lo, hi = rng.choice([('int8', -128, 127), ('uint8', 0, 255), ('int16', -32768, 32767), ('uint16', 0, 65535)])
+    lim = [[rng.choice([lo, hi, 1, 0]) for _ in range(w)] for _ in range(h)]
+    lim[0][0], lim[h - 1][w - 1] = lo, hi
+    out.append(base_case(lim, layout='dtype-limits', dtype=dt, tv=[float(hi)] if lo == 0 else [float(lo), float(hi)],
+                         mode='target_values', only=['allocation'], tv_kind='ints'))
+    # a requested value one ulp off the cell value must not match; the float32 cell value itself must
+    g = [[0.25] * w for _ in range(h)]
+    g[1][2] = 0.1
+    ulp = [[float(v) for v in row] for row in g]
+    which = rng.randrange(3)
+    if which == 0:
+        out.append(base_case(g, layout='tv-one-ulp-off', tv=[math.nextafter(0.1, 1.0), math.nextafter(0.25, 0.0)],
+                             mode='target_values', only=['proximity']))
+    elif which == 1:
+        out.append(base_case(g, layout='tv-float32-cell', dtype='float32', tv=[float(np.float32(0.1))], mode='target_values',
+                             only=['proximity']))
+    else:
+        out.append(base_case(g, layout='tv-float64-vs-float32-cell', dtype='float32', tv=[0.1], mode='target_values',
+                             only=['proximity']))
+    # max_distance as a numpy scalar, coordinates in another dtype, empty tuple / ndarray target_values
+    g = gen_layout(rng, 4, 5, 'sparse')
+    out.append(base_case(g, layout='md-numpy-scalar', max_distance=2.0, md_kind=rng.choice(['np.float32', 'np.int64', 'np.float64',
+                                                                                           'np.int32']),
+                         cdtype=rng.choice(['float32', 'int32', 'int16']), only=['proximity'], tv_kind=rng.choice(['tuple', 'ndarray'])))
+    # degenerate rasters
+    nan = float('nan')
+    out.append(base_case([[nan, nan, nan], [nan, nan, nan]], layout='all-nan', only=['proximity']))
+    one = [[nan] * 3 for _ in range(3)]
+    one[rng.randrange(3)][rng.randrange(3)] = 5.0
+    out.append(base_case(one, layout='one-valid-cell', only=['allocation'], max_distance=rng.choice(['inf', 1.0])))
+    out.append(base_case([[rng.choice([0, 7])]], layout='1x1', only=['proximity', 'direction'], max_distance=rng.choice(['inf', 0.0])))
+    out.append(base_case([[0, 3], [0, 0]], layout='2x2', only=['direction'], ys=[1, 0]))
+    # GREAT_CIRCLE on the antimeridian and at the poles
+    ys = rng.choice([[90, 60, 30, 0], [-90, -45, 0, 45, 90]])
+    xs = [-180, -90, 0, 90, 180]
+    g = [[0] * len(xs) for _ in ys]
+    g[rng.randrange(len(ys))][rng.choice([0, len(xs) - 1])] = 4
+    out.append(dict(fn='numpy3', layout='gc-antimeridian-poles', metric='GREAT_CIRCLE', data=[[float(v) for v in row] for row in g],
+                    dtype='float64', xs=xs, ys=ys, cdtype='float64', ykind='gc', xkind='gc', tv=[], mode='default',
+                    max_distance='inf', only=['proximity', 'allocation']))
+    return out
+
+
 def canon_impl(res):
     """worker result -> ({name: grid}, {name: error})"""
     grids, errs = {}, {}
@@ -1221,12 +1341,14 @@ def canon_impl(res):
             grids[name] = v['v']
             if v['dtype'] != 'float32':
                 errs[name + '/dtype'] = v['dtype']
+            if v.get('mutated'):
+                errs[name + '/mutated'] = v['mutated']
     return grids, errs
 
 
 def nontrivial(case):
     data = cast_data(case)
-    tv = [float(v) for v in case.get('tv', [])]
+    tv = case_tv(case)
     flags = [is_target_val(v, tv) for row in data for v in row]
     return any(flags) and not all(flags)
 
@@ -1245,6 +1367,9 @@ def build_cases(ctx, n_main, n_small, n_gc):
         cases.append(gen_case(rng, i, small=True))
     for i in range(n_gc):
         cases.append(gen_gc_case(rng, i))
+    # appended last: earlier draws stay as they were
+    for _ in range(max(1, n_main // 40)):
+        cases += theme_cases(rng)
     return cases
 
 
@@ -1260,10 +1385,12 @@ def process_results(ctx, cases, results, what='numpy'):
             continue
         grids, errs = canon_impl(res)
         case_e = dict(case, _err=errs) if errs else case
-        if errs and any('/' in k for k in errs):
+        if errs and any(k.endswith('/dtype') for k in errs):
             ctx.violation('oracle', '%s: output dtype is not float32: %r' % (what, errs), case)
+        if errs and any(k.endswith('/mutated') for k in errs):
+            ctx.violation('oracle', '%s: the call changed the caller\'s raster (%r)' % (what, errs), case)
         oracle(ctx, case_e, grids, what)
-        if len(grids) == 3 and not case.get('no_model'):
+        if len(grids) == len(case.get('only') or (1, 2, 3)) and not case.get('no_model'):
             try:
                 lines.append(model_line(case))
                 idx.append((case, grids))
@@ -1302,6 +1429,8 @@ def process_extra(ctx, meta, res):
             ctx.case(c, nontrivial=nontrivial(c))
             ctx.count('%s-stream/%s' % (kind, c['metric']))
             grids, errs = canon_impl(one)
+            if any(k2.endswith('/mutated') for k2 in errs):
+                ctx.violation('oracle', '%s stream: the call changed the caller\'s raster (%r)' % (kind, errs), c)
             case_e = dict(c, _err=errs, sequence_position=k, sequence=cs) if kind == 'seq' else dict(c, _err=errs)
             oracle(ctx, case_e, grids, 'dask-backed' if kind == 'dask' else 'call %d of an in-process sequence' % (k + 1))
 
@@ -1311,7 +1440,7 @@ def run_all(ctx, cases, rounds):
     pool = ImplPool()
     try:
         # the multi-call requests first, so that they overlap with the single-case ones
-        res = pool.map(ereqs + [{'op': 'numpy3', 'case': c} for c in cases])
+        res = pool.map(ereqs + [{'op': 'numpy3', 'case': c, 'only': c.get('only')} for c in cases])
     finally:
         pool.close()
     process_extra(ctx, emeta, res[:len(ereqs)])
